@@ -24,9 +24,30 @@ MANIFEST = {
 }
 
 
+def build_unsupported_expr(item):
+    """s5 item builder: an expression of the unsupported family that ffcx accepted"""
+    from .. import kcorpus
+    objs, _opts, _kind = kcorpus.UNSUPPORTED[item["uns"]]()
+    e, pts = objs[0]
+    return {"expr": e, "points": pts, "case": {"uns": item["uns"]}}
+
+
 def run(chk):
     s4.run_names(chk)
-    s4.run_unsupported(chk)
+    summary = s4.run_unsupported(chk)
+    # "never produce code that silently computes something else": an EXPRESSION of the unsupported family that is
+    # accepted is evaluated by the exact oracle (Fem.tla) like a C04 case - its kernel must then at least compute it
+    acc = [n for n, v in summary.items() if v.startswith("accepted")]
+    from .. import kcorpus, s5
+    items = []
+    for n in acc:
+        objs, opts, kind = kcorpus.UNSUPPORTED[n]()
+        if kind == "expr" and not opts:
+            items.append({"builder": "harness.checks.c19.build_unsupported_expr", "uns": n, "seed": chk.seed + 5, "scalar": "float64",
+                          "ninputs": 1, "label": f"accepted-unsupported/{n}"})
+    if items:
+        recs = s5.run_items(chk, items, nworkers=1)
+        s5.report(chk, items, recs)
 
 
 def replay(chk, path):
